@@ -311,6 +311,9 @@ theorem superblocks_table_sorted (t : Bool) (bits : List Bool) (k : Nat) (hk : 1
       ((superblocks t bits.length (k * 32) (getBlock bits))[a]'(by omega)) = false :=
   superblocks_sorted t bits k hk a b hab hb
 
+/-- the assumed contract of `binary_search` is satisfiable: the linear search of the mirror model (`searchIdx`) has it -/
+theorem binary_search_contract_satisfiable : BSearchOk SbRank.lt searchIdx := searchIdx_ok
+
 /-- **`RankSelect::select_x`, as written, is the model's `selectX`** for both polarities: binary search (any function with
 the documented contract), block scan, bit scan with the early `return`, padding bits skipped -/
 theorem select_source_eq_model (bl : List Bool → Nat) (cd8 : Nat → Nat) (bs : List SbRank → SbRank → Nat)
